@@ -224,4 +224,33 @@ theorem opRename_rowSetName (s : State K P) (sc : Scope) (acct name : Nat) (sc' 
     simp only [setName_rowName]
     cases acctRow s sc' a <;> rfl
 
+-- ---------------------------------------------------------------------------------------------------------
+-- look-ups do not interact: a `DeriveFromKeyPathCache` request leaves the whole state alone
+
+/-- a `DeriveFromKeyPathCache` request -/
+def IsDeriveCache : Op K P → Prop
+  | .deriveCache .. => True
+  | _ => False
+
+theorem step_deriveCache_state (cfg : Cfg) (hd : HD K P) (s : State K P) (sc : Scope) (a ac b i : Nat) :
+    (step cfg hd s (.deriveCache sc a ac b i)).1 = s := by
+  simp only [step]
+  split
+  · rfl
+  · split
+    · rfl
+    · exact opDeriveCache_state hd s sc a b i
+
+/-- any number of look-ups, of any paths, in any order: the state is the one before the first of them -/
+theorem foldl_deriveCache_state (cfg : Cfg) (hd : HD K P) (qs : List (Op K P)) (hq : ∀ op ∈ qs, IsDeriveCache op)
+    (s : State K P) : qs.foldl (fun st op => (step cfg hd st op).1) s = s := by
+  induction qs generalizing s with
+  | nil => rfl
+  | cons op t ih =>
+    have h1 : IsDeriveCache op := hq op (List.mem_cons_self ..)
+    have ht : ∀ op ∈ t, IsDeriveCache op := fun o ho => hq o (List.mem_cons_of_mem _ ho)
+    cases op <;> simp only [IsDeriveCache] at h1
+    rw [List.foldl_cons, step_deriveCache_state]
+    exact ih ht s
+
 end AddrDerive
